@@ -171,11 +171,22 @@ func c33(r *engine.Run) {
 	sp := engine.Space[*syncLive, string]{
 		New:   func() *syncLive { return &syncLive{n: freshNode(w)} },
 		Close: func(l *syncLive) { l.n.close() },
-		Ops:   func(l *syncLive) []string { return names },
+		Ops: func(l *syncLive) []string {
+			if l.n.M == nil {
+				return nil // a diverged (dishonest) state was reported already and is not explored further
+			}
+			return names
+		},
 		Key: func(l *syncLive) string {
+			if l.n.M == nil {
+				return "diverged:" + l.n.key()
+			}
 			return l.n.key()
 		},
 		Apply: func(l *syncLive, name string, check bool) string {
+			if l.n.M == nil {
+				return "dead"
+			}
 			msg := byName[name]
 			v := l.n.V
 			m := l.n.M
